@@ -100,7 +100,12 @@ class Gen:
                 break       # a pseudo-element ends the compound
         last_is_element = bool(parts) and parts[-1].startswith(':') and parts[-1][1:] in LEGACY_ELEMENTS
         if rnd.random() < 0.2 and not last_is_element:
-            parts.append('::' + rnd.choice(PSEUDO_ELEMENTS))
+            if rnd.random() < 0.3:
+                # functional pseudo-element (derivable from `pseudo: ':' ':'? functional_pseudo`)
+                parts.append('::%s(%s%s%s)' % (rnd.choice(['part', 'slotted', 'cue', 'x-fn']), self.ws(),
+                                               rnd.choice(['x', 'span', '1', '"s"', '2n+1']), self.ws()))
+            else:
+                parts.append('::' + rnd.choice(PSEUDO_ELEMENTS))
             spec[2] += 1
             last_is_element = True
         return ''.join(parts), spec, pairs, last_is_element
